@@ -51,6 +51,13 @@ func (t *brokerPublishTransactionBase) regack(snRegack *snPkts1.Regack, newState
 		return nil
 	}
 	snRegister := t.Data.(*snPkts1.Register)
+	if snRegack.ReturnCode == snPkts1.RC_ACCEPTED && snRegack.TopicID != snRegister.TopicID {
+		// Not the answer to this REGISTER: a late duplicate of the REGACK of
+		// an earlier REGISTER which had the same MsgID (the MsgIDs chosen by
+		// the gateway are reused as soon as they are free).
+		t.log.Debug("REGACK for another TopicID (expected %d): %v", snRegister.TopicID, snRegack)
+		return nil
+	}
 	t.handler.registrationMutex.Lock()
 	if snRegack.ReturnCode == snPkts1.RC_ACCEPTED {
 		t.handler.registeredTopics.Store(snRegister.TopicID, snRegister.TopicName)
